@@ -28,12 +28,13 @@ func VH_C01_FrameStep() {
 	err := s.sendMessageWithEnd(vhCtx, d, end)
 	if err != nil {
 		vCover("sender-rejects")
-		vAssert(len(sc.out) == 0, "rejected-frame-emits-nothing")
+		vAssert(len(sc.outs) == 0, "rejected-frame-emits-nothing")
 		return
 	}
 	vTag("plain_len", n)
-	vTag("wire_len", len(sc.out)-5)
-	rc.in = sc.out
+	vAssert(len(sc.outs) == 1, "one-write-per-frame")
+	vTag("wire_len", len(sc.outs[0])-5)
+	rc.feed(sc.outs[0])
 	out, flag, rerr := r.ReceiveFrameWithEnd(vhCtx)
 	vAssert(rerr == nil, "receiver-accepts-what-sender-sent")
 	if rerr != nil {
@@ -41,7 +42,7 @@ func VH_C01_FrameStep() {
 	}
 	vAssert(flag == end, "end-flag-preserved")
 	vAssertBytesEqual(out, d, "payload-identical")
-	vAssert(rc.rpos == len(rc.in), "receiver-consumed-exactly-the-frame")
+	vAssert(rc.drained(), "receiver-consumed-exactly-the-frame")
 	if enc {
 		vAssert(s.encryptCounter == c0+1, "send-counter-advanced")
 		vAssert(r.decryptCounter == s.encryptCounter, "counters-mirrored-after-step")
